@@ -332,6 +332,9 @@ SeqLen(S, lvl) == LET c == Cardinality(S) b == (IF lvl = 0 THEN B0 ELSE IF lvl =
 SeqsUpTo(S, L) == UNION {[1..k -> S] : k \in 0..L}
 Injective(s)   == \A i, j \in 1..Len(s) : i # j => s[i] # s[j]
 
+\* elements of 127 / 128 bytes: the size prefix of a variable-width vector element passes from one to two vint bytes
+LongElems(t, lvl) == IF lvl = 0 /\ IsScalar(t) /\ Kind(t) \in {"text", "blob"}
+                     THEN {Tup([i \in 1..127 |-> 97]), Tup([i \in 1..128 |-> 98])} ELSE {}
 \* Vals(t, lvl, nn): abstract values of type t at nesting level lvl; nn = TRUE: no null anywhere (values that get ordered)
 RECURSIVE Vals(_, _, _)
 Opts(t, lvl, nn) == {Some(x) : x \in Vals(t, lvl, nn)} \cup (IF nn THEN {} ELSE {None})
@@ -348,7 +351,7 @@ Vals(t, lvl, nn) ==
                                  P == {<<k, x>> : k \in K, x \in X} IN
                              {s \in SeqsUpTo(P, SeqLen(P, lvl)) : \A i, j \in 1..Len(s) : i # j => s[i][1] # s[j][1]}
       [] Kind(t) \in {"tuple", "udt"} -> Prod(t[2], lvl + 1, nn)
-      [] Kind(t) = "vector" -> [1..t[3] -> Vals(t[2], lvl + 1, TRUE)]   \* a vector has no null elements
+      [] Kind(t) = "vector" -> [1..t[3] -> Vals(t[2], lvl + 1, TRUE) \cup LongElems(t[2], lvl)]   \* a vector has no null elements
 
 \* ------------------------------------------------------------------ type trees
 SetOK  == (IntLike \ {"counter"}) \cup {"boolean", "text", "ascii", "blob", "uuid", "timeuuid"}     \* what this spec can order
@@ -478,5 +481,7 @@ Witness_V2Width     == ~(expect = "ok" /\ pv < 3 /\ ~IsScalar(ty) /\ Kind(ty) = 
 Witness_Vint5       == ~(expect = "ok" /\ ty = Sc("duration") /\ Len(enc) >= 7)
 Witness_Varint3     == ~(expect = "ok" /\ ty = Sc("varint") /\ Len(enc) = 3)
 Witness_Raise       == ~(expect = "raise")
+Witness_LongVecElem == ~(expect = "ok" /\ ~IsScalar(ty) /\ Kind(ty) = "vector" /\ ty[2] \in {Sc("text"), Sc("blob")}
+                         /\ \E i \in 1..Len(val) : Len(val[i]) >= 128)
 Witness_VarVector   == ~(expect = "ok" /\ ~IsScalar(ty) /\ Kind(ty) = "vector" /\ Fixed(ty[2]) = 0)
 =============================================================================
